@@ -220,8 +220,12 @@ func (s *Sim) apply(o Option) bool {
 		c := &Call{ID: o.ID, Seq: o.Seq, Body: o.Body, ctx: ctx, cancel: cancel, Started: true}
 		t := &thread{kind: "call", id: o.ID, resume: make(chan string), call: c}
 		c.th = t
+		if old, ok := s.calls[o.ID]; ok {
+			s.retired = append(s.retired, old) // same message id used again (Scenario.Reuse)
+		} else {
+			s.order = append(s.order, o.ID)
+		}
 		s.calls[o.ID] = c
-		s.order = append(s.order, o.ID)
 		req := rpc.Request{MsgID: o.ID, SeqNo: o.Seq, Input: bodyEnc{o.Body}, Output: &output{s, c}}
 		if !s.spawn(t, func() { c.Err = s.Eng.Do(ctx, req) }) {
 			return false
